@@ -311,13 +311,24 @@ def reqVal (e : NId × Bool) : Val := .tag "req" (.cons (encKey e.1) (.bool e.2)
 
 def encInflight (es : List (NId × Bool)) : Val := Val.ofList (es.map fun e => .cons (encKey e.1) (reqVal e))
 
-/-- The connection-error response `closeInFlight` builds for id `k`. -/
-def connErrResp (k : NId) : Val :=
-  .tag "resp" (Val.ofList [.cons (.str "Jsonrpc") (.str "2.0"), .cons (.str "ID") (encKey k),
+/-- The connection-error response `closeInFlight` builds for the request keyed `id`. -/
+def connErrRespV (id : Val) : Val :=
+  .tag "resp" (Val.ofList [.cons (.str "Jsonrpc") (.str "2.0"), .cons (.str "ID") id,
     .cons (.str "Error") (.tag "rpcerr" (Val.ofList [.cons (.str "Message") (.str "handler: websocket connection closed"),
       .cons (.str "Code") (.int (-1111111))]))])
 
-def deliverFx (k : NId) : Val := .cons (.str "deliver") (.cons (encKey k) (connErrResp k))
+def deliverFxV (id : Val) : Val := .cons (.str "deliver") (.cons id (connErrRespV id))
+def connErrResp (k : NId) : Val := connErrRespV (encKey k)
+def deliverFx (k : NId) : Val := deliverFxV (encKey k)
+
+/-- What one iteration of each of the two loops of `closeInFlight` adds to the effect log. -/
+def sweepFx1 : Val → List Val
+  | .cons _ (.tag "req" (.cons id (.bool true))) => [deliverFxV id]
+  | _ => []
+
+def sweepFx2 : Val → List Val
+  | .cons _ vv => [.cons (.str "cancel") vv]
+  | _ => []
 
 /-- `select { case ch <- v: … default: … }` tries the send: it succeeds iff the mailbox has room, and never blocks. -/
 def sweepExt : Ext
